@@ -946,4 +946,40 @@ Proof.
   - vm_compute. reflexivity.
 Qed.
 
+(* C02 at the level of the object store: with a write-back whose send for key 1 is dropped, a flush+reopen changes
+   what a later read returns, although the history is otherwise synchronous *)
+Definition w_c02_wb : list (cop (K:=N) (V:=N)) :=
+  [CPut 0 11; CPut 1 12; CWriteBack [0]; CFlushReopen; CRead 0; CRead 1].
+Definition w_c02_plain : list (cop (K:=N) (V:=N)) := [CPut 0 11; CPut 1 12; CRead 0; CRead 1].
+
+Lemma c02_writeback_refuted :
+  ~ In Bad (fst (runW emptyW (lower w_c02_wb))) /\
+  rets (fst (runW emptyW (lower w_c02_wb))) = [11; 1001] /\
+  rets (fst (runW emptyW (lower w_c02_plain))) = [11; 12].
+Proof. split; [vm_compute; intuition discriminate|]. split; vm_compute; reflexivity. Qed.
+
+(* the hypotheses of the lifting lemma are satisfiable with a non-trivial equivalence: values are compared modulo 100
+   (think "same profile up to frames that do not matter"), the codec loses the hundreds, operations add constants *)
+Definition w_req (a b : N) : Prop := a mod 100 = b mod 100.
+Definition w_enc100 (k v : N) : N := v mod 100.
+Definition w_transparent : list (cop (K:=N) (V:=N)) :=
+  [CPut 0 205; CMutate 0 (fun v => v + 3); CEvict 1 1 [0]; CRead 0; CFlushReopen; CMutate 0 (fun v => v + 100); CRead 0].
+
+Lemma w_req_equiv : RelationClasses.Equivalence w_req.
+Proof. unfold w_req. split; [intros x; reflexivity | intros x y H; symmetry; exact H | intros x y z H1 H2; congruence]. Qed.
+
+Lemma c02_transparent_nonvacuous :
+  (forall k v, w_req (w_id k (w_enc100 k v)) v) /\
+  forallb (is_sync (K:=N) (V:=N)) w_transparent = true /\
+  Forall (congr_op w_req) (lower w_transparent) /\
+  rets (fst (run N.eq_dec w_dflt w_enc100 w_id emptyW (lower w_transparent))) = [205; 8; 8; 108] /\
+  rets (fst (run N.eq_dec w_dflt w_enc100 w_id emptyW (lower (filter (fun o => negb (is_maint o)) w_transparent)))) = [205; 208; 208; 308].
+Proof.
+  split; [|split; [reflexivity|split; [|split; vm_compute; reflexivity]]].
+  - intros k v. unfold w_req, w_id, w_enc100. apply N.mod_mod. discriminate.
+  - unfold w_transparent. cbn [lower flat_map lower1 app repeat length].
+    repeat constructor; cbn; auto; intros a b H; unfold w_req in *;
+      rewrite (N.add_mod a), (N.add_mod b), H by discriminate; reflexivity.
+Qed.
+
 End Witnesses.
